@@ -31,6 +31,10 @@ package msg
 //@   invariant [inflight] forall s uint16 :: { dom(this.totalInFlightTopicsBySender, s) } s in this.totalInFlightTopicsBySender ==>
 //@                          this.totalInFlightTopicsBySender[s] != nil
 //@
+//@   // a topic that has started is never buffered again (C14): every critical section that creates a buffer or starts a topic
+//@   // establishes this itself, whatever other goroutines did before it took the lock
+//@   invariant [exclusive] forall t string :: { dom(this.pendingMessages, t) } t in this.pendingMessages ==> !(t in this.startedSending)
+//@
 //@ monitor (*storedMessages).lock
 //@   guards messages, messageCountPerSender, lastUsed
 //@   invariant [non-nil] forall i int :: 0 <= i && i < len(this.messages) ==> this.messages[i] != nil
@@ -52,25 +56,37 @@ package msg
 //@   modifies b.pendingMessages, b.startedSending, b.totalInFlightTopicsBySender, b.stopClock, guarded(b.lock)
 //@   ensures  b.pendingMessages != nil && b.startedSending != nil && b.totalInFlightTopicsBySender != nil
 //@
-//@ func (*Box).markTopicForSender
-//@   props C10 C14 C15
-//@   requires msg != nil && b.totalInFlightTopicsBySender != nil
-//@   modifies guarded(b.lock)
-//@
-//@ func (*Box).getOrCreateMessagesByTopic
-//@   props C10 C14 C15
-//@   modifies b.pendingMessages, b.startedSending, b.totalInFlightTopicsBySender, b.stopClock, guarded(b.lock)
-//@   ensures  result != nil && result.messageCountPerSender != nil && result.logger != nil
-//@   ensures  b.pendingMessages != nil && b.startedSending != nil && b.totalInFlightTopicsBySender != nil
+//@ // exactly-once across the first-send race (C14): the message is appended only to the buffer that is pendingMessages[T]
+//@ // at that moment, in the critical section that has just seen that T has not started
+//@ func (*Box).store
+//@   props C10 C14 C20
+//@   requires msg != nil && b.pendingMessages != nil && b.startedSending != nil && b.totalInFlightTopicsBySender != nil && b.Logger != nil
+//@   modifies guarded(b.lock), heap:F!storedMessages!messages, heap:F!storedMessages!lastUsed, heap:F!storedMessages!messageCountPerSender, heap:F!storedMessages!logger,
+//@            heap:MD!uint16!int, heap:MV!uint16!int, heap:E!p_tss_IncMessage, heap:MD!string!empty, heap:MV!string!empty
+//@   on-call (*storedMessages).add(sm, m, e):
+//@     assert [same-section]   held(b.lock)
+//@     assert [current-buffer] m == msg && string(msg.Topic) in b.pendingMessages && sm == b.pendingMessages[string(msg.Topic)] && !(string(msg.Topic) in b.startedSending)
 //@
 //@ func (*storedMessages).add
 //@   props C10 C14 C15
 //@   requires msg != nil && sm.logger != nil && sm.messageCountPerSender != nil
 //@   modifies guarded(sm.lock)
 //@
+//@ // every path hands the message over once, or stores it once, or sheds it because of the topic limit
 //@ func (*Box).storeOrForward
 //@   props C10 C14 C15
 //@   requires msg != nil
+//@   ghost-var handed int
+//@   ghost-var stores int
+//@   on-call b.MessageHandler.HandleMessage(m):
+//@     assert [the-message] m == msg
+//@     ghost handed = handed + 1
+//@   on-call (*Box).store(bb, m):
+//@     assert [the-message] m == msg && handed == 0
+//@     ghost stores = stores + 1
+//@   at return:
+//@     assert [at-most-once] handed <= 1 && stores <= 1
+//@     assert [accounted]    handed == 1 || stores == 1 || tooManyTopicsFromSender
 //@
 //@ func (*Box).HandleMessage
 //@   props C10 C14 C15
@@ -78,6 +94,14 @@ package msg
 //@
 //@ func (*Box).Send
 //@   props C14 C15
+//@
+//@ // in-order hand-off (C14): while the buffered messages of a topic are being handed over, direct forwarding for that topic
+//@ // must not be enabled yet, or a message of the same sender that arrives now overtakes them
+//@ func (*Box).Send$1
+//@   props C14
+//@   inline
+//@   on-call (*Box).HandleMessage(bb, m):
+//@     assert [drain-before-forwarding] !(string(m.Topic) in b.startedSending)
 //@
 //@ func (*Box).maybeGC
 //@   props C15
